@@ -6,7 +6,8 @@
 (* real expansion of every code path, the references that are NOT reached  *)
 (* through `derive_more::..`, `::..`, `Self`, a binding of the expansion   *)
 (* itself or the user's own tokens: Bare == {<<path, kind, name>>}, kind   *)
-(* \in {"expr","type","pat","bound","trait","macro","use"} (constants      *)
+(* \in {"expr","type","pat","bound","trait","macro","use","abs"} ("abs": an *)
+(* absolute path `::krate::..`; constants                                  *)
 (* module HygieneData, generated).                                         *)
 (* A scope is what the caller's module provides: its prelude (or none) and *)
 (* the names it defines itself.                                            *)
@@ -24,15 +25,17 @@ PreludeMacros == {"write", "writeln", "format_args", "format", "matches", "panic
                   "assert", "assert_eq", "debug_assert", "vec", "concat", "stringify", "println", "compile_error"}
 ExternCrates == {"core", "std", "alloc"}
 
-\* scope = [prelude : BOOLEAN, shadows : set of names defined locally]
-Scopes == {[prelude |-> TRUE, shadows |-> {}],                      \* ordinary module
-           [prelude |-> FALSE, shadows |-> {}]}                     \* #[no_implicit_prelude]
-          \cup {[prelude |-> TRUE, shadows |-> {n}] : n \in PreludeNames \cup PreludeMacros \cup ExternCrates}
+\* scope = [prelude : BOOLEAN, shadows : set of names defined locally, nostd : BOOLEAN (the caller's crate is #![no_std])]
+Scopes == {[prelude |-> TRUE, shadows |-> {}, nostd |-> FALSE],                      \* ordinary module
+           [prelude |-> FALSE, shadows |-> {}, nostd |-> FALSE],                     \* #[no_implicit_prelude]
+           [prelude |-> TRUE, shadows |-> {}, nostd |-> TRUE]}                       \* a #![no_std] crate
+          \cup {[prelude |-> TRUE, shadows |-> {n}, nostd |-> FALSE] : n \in PreludeNames \cup PreludeMacros \cup ExternCrates}
 
 \* does the bare reference reach the item the macro author meant?
 Resolves(r, sc) ==
     LET name == r[3] IN
-    IF name \in Primitive THEN TRUE
+    IF r[2] = "abs" THEN (name = "core" \/ (name \in {"std", "alloc"} /\ ~sc.nostd))   \* `::std::..` needs a crate that links std
+    ELSE IF name \in Primitive THEN TRUE
     ELSE IF name \in sc.shadows THEN FALSE                           \* the caller's item is found instead
     ELSE IF name \in PreludeNames THEN sc.prelude
     ELSE IF name \in PreludeMacros THEN r[2] = "macro"               \* macro_use prelude survives no_implicit_prelude
